@@ -53,7 +53,12 @@ func getChainRoles(p *ir.Prog) *chainRoles {
 	if r.applyTip == nil || r.revertTip == nil {
 		ir.Fail("Manager methods performing Store.ApplyBlock / Store.RevertBlock not found")
 	}
-	r.reorgTo = smallestUnitCovering(p, r.methods, r.storeApply, r.storeRevert)
+	// (the walker is also the unit that commits: a single-step helper that merely dispatches to the apply or the
+	// revert step covers both store calls but no flush)
+	r.reorgTo = smallestUnitCovering(p, r.methods, r.storeApply, r.storeRevert, r.storeFlush)
+	if r.reorgTo == nil || r.reorgTo == r.applyTip || r.reorgTo == r.revertTip {
+		r.reorgTo = smallestUnitCovering(p, r.methods, r.storeApply, r.storeRevert)
+	}
 	if r.reorgTo == nil || r.reorgTo == r.applyTip || r.reorgTo == r.revertTip {
 		ir.Fail("Manager method walking the tip (performs both the apply and the revert step) not found")
 	}
